@@ -224,10 +224,39 @@ def descr_rot(row, rhs, ops):
     return probs
 
 
+def trap_first(e):
+    """normalise `c ? value : trap` into `!c ? trap : value` (with `!(y != 0)` and `!y` spelled as `y == 0`) so that conditional
+    chains have their trapping arms first, whichever way the source spells the test"""
+    e0 = e
+    casts = []
+    while e0.k == 'cast' and e0.a[0].k in ('cond', 'cast'):
+        casts.append(e0)
+        e0 = e0.a[0]
+    if e0.k != 'cond':
+        return e
+    c, a, b = e0.a
+    a, b = trap_first(a), trap_first(b)
+    if trap_of(b) is not None and trap_of(a) is None:
+        c0, _ = unwrap(c)
+        if c0.k == 'bin' and c0.x == '!=' and const_value(c0.a[1]) == 0:
+            nc = E('bin', c0.ty, [c0.a[0], c0.a[1]], c0.node, '==')
+        elif c0.k == 'un' and c0.x == '!':
+            nc = E('bin', 'int', [c0.a[0], E('const', 'int', (), c0.node, 0)], c0.node, '!=')
+        else:
+            nc = E('bin', 'int', [c, E('const', 'int', (), c0.node, 0)], c0.node, '==')
+        out = E('cond', e0.ty, [nc, b, a], e0.node, e0.x)
+    else:
+        out = E('cond', e0.ty, [c, a, b], e0.node, e0.x)
+    for cst in reversed(casts):
+        out = E('cast', cst.ty, [out], cst.node, cst.x)
+    return out
+
+
 def descr_divrem(row, rhs, ops):
     W = W_OF[row['sem']['type']]
     sg = row['sem']['sign']
     is_div = row['sem']['cls'] == 'div'
+    rhs = trap_first(rhs)
     arms, els = cond_chain(rhs)
     core, _ = unwrap(els)
     if core.k != 'bin' or core.x not in ('/', '%'):
@@ -280,6 +309,9 @@ def descr_divrem(row, rhs, ops):
 
 def _guard_kind(g, ops, W):
     g0, _ = unwrap(g)
+    # `!y` is the same test as `y == 0`
+    if g0.k == 'un' and g0.x == '!' and full_slot(unwrap(g0.a[0])[0] if False else g0.a[0], ops[1], W):
+        return 'zero'
     if g0.k == 'bin' and g0.x == '==':
         for x, c in ((g0.a[0], g0.a[1]), (g0.a[1], g0.a[0])):
             cv = const_value(c)
